@@ -407,6 +407,16 @@ def gtPad {τ : Type} (maxInst : Nat) (m : List τ) : List (Option τ) :=
   if m.length < maxInst then m.map some ++ List.replicate (maxInst - m.length) none
   else (m.take maxInst).map some
 
+/-- single-instance output rows as the consumer reads them: `frame_idx`, `video_idx` and the row of
+peaks are three parallel per-batch sequences, zipped (`_make_labeled_frames_from_generator`) -/
+def singleRecords {τ β ι : Type} (row : τ → β) (fidx vidx : τ → ι) (batch : List τ) : List (ι × ι × β) :=
+  (batch.map fidx).zip ((batch.map vidx).zip (batch.map row))
+
+/-- ground-truth-peaks output: the batch dictionary's `frame_idx` / `video_idx` next to the parsed rows;
+a frame = (frame_idx, video_idx, its matched instances) -/
+def gtRecords {τ ι : Type} (maxInst : Nat) (batch : List (ι × ι × List τ)) : List (ι × ι × List (Option τ)) :=
+  (batch.map (·.1)).zip ((batch.map (·.2.1)).zip (gtPeaks maxInst (batch.map (·.2.2))))
+
 /-- `_predict_generator`: read up to `B` frames per round until the sentinel -/
 def chunksFuel {τ : Type} (B : Nat) : Nat → List τ → List (List τ)
   | 0, _ => []
